@@ -41,7 +41,8 @@ def correspondence(chk, drv):
     # dense range rows (every 1-3 integration steps) across the crossings: events that fall into the very step that also
     # produces a range row
     trajcorr.corr_fire(chk, drv, pbc, 12 if chk.tier == 'quick' else 600, want_extra=True, cfg_default=0.8, label='fire-extra-dense',
-                       gen_kwargs={'flat': True, 'allow_cant': False, 'max_look': 10.0},
+                       gen_kwargs=lambda rng: {'flat': True, 'allow_cant': False, 'max_look': 10.0,
+                                               'mv': rng.choice([rng.uniform(1125, 1190), rng.uniform(1125, 1190), rng.uniform(1500, 3000)])},   # half of them go subsonic within the range
                        requests=lambda rng: (rng.choice([150.0, 300.0, 600.0]), rng.choice([0.5, 1.0, 1.5]), True, 0.0))
 
 
